@@ -1,68 +1,2 @@
-(* GENERATED by /verif/tools/kernels.py from mpire/pool.py, mpire/comms.py, mpire/worker.py, mpire/async_result.py -- do not edit.
-   source sha256: (see evidence) *)
-From Coq Require Import ZArith List Bool Lia String.
-From Mpv Require Import NumOps.
-Import ListNotations.
-Open Scope Z_scope.
-
-(* pool.imap_unordered: main waits (yielding results) while this holds
-   source: not self._worker_comms.exception_thrown() and n_active > 0 and (n_active + len(chunk_of_tasks) > max_tasks_active) *)
-Definition dispatch_wait (exn : bool) (n_active : Z) (chunk_len : Z) (max_tasks_active : Z) : bool :=
-  ((negb exn) && ((0 <? n_active) && (max_tasks_active <? (n_active + chunk_len)))).
-
-(* pool.imap_unordered: n_active after add_task
-   source: n_active + len(chunk_of_tasks) *)
-Definition n_active_after_add (n_active : Z) (chunk_len : Z) : Z :=
-  (n_active + chunk_len).
-
-(* comms.WorkerComms._get_task_worker_id: result and new (task_idx, last_completed) *)
-Definition get_task_worker_id (order_tasks : bool) (n_jobs : Z) (worker_id : option Z) (task_idx : Z)
-    (last_completed : list Z) : res (Z * (Z * list Z)) :=
-  match worker_id with
-  | Some worker_id =>
-    Ok (worker_id, (task_idx, last_completed))
-  | None =>
-    if (order_tasks || (negb (negb (zlen last_completed =? 0)))) then
-      let worker_id := (task_idx mod n_jobs) in
-      let self__task_idx := (task_idx + 1) in
-      Ok (worker_id, (self__task_idx, last_completed))
-    else
-      match last_completed with
-      | worker_id :: self__last_completed_task_worker_id =>
-        Ok (worker_id, (task_idx, self__last_completed_task_worker_id))
-      | [] => Err 3
-      end
-  end.
-
-(* worker.run: the worker asks for another chunk while this holds
-   source: self.map_params.worker_lifespan is None or n_tasks_executed < self.map_params.worker_lifespan *)
-Definition worker_loop_guard (worker_lifespan : option Z) (n_tasks_executed : Z) : bool :=
-  (match worker_lifespan with Some self_map_params_worker_lifespan => (n_tasks_executed <? self_map_params_worker_lifespan) | None => true end).
-
-(* worker.run (finally): the worker asks to be restarted
-   source: not self.worker_comms.exception_thrown() and self.map_params.worker_lifespan is not None and (n_tasks_executed >= self.map_params.worker_lifespan) *)
-Definition restart_condition (exn : bool) (worker_lifespan : option Z) (n_tasks_executed : Z) : bool :=
-  ((negb exn) && (match worker_lifespan with Some self_map_params_worker_lifespan => (self_map_params_worker_lifespan <=? n_tasks_executed) | None => false end)).
-
-(* worker._handle_poison_pill: worker_exit runs on a lethal pill iff
-   source: self.map_params.worker_exit and n_tasks_executed > 0 *)
-Definition exit_on_pill (has_exit : bool) (n_tasks_executed : Z) : bool :=
-  (has_exit && (0 <? n_tasks_executed)).
-
-(* worker._run_init_func runs worker_init iff configured and not yet completed for this instance *)
-Definition run_init_guard (has_init init_func_completed : bool) : bool :=
-  has_init && negb init_func_completed.
-
-(* comms.wait_for_all_results_received: the leaving worker waits while this holds
-   source: self._results_received[worker_id] != self._results_added[worker_id] *)
-Definition results_wait (received : Z) (added : Z) : bool :=
-  (negb (received =? added)).
-
-(* comms.reset_results_received: which per-worker counters a new instance zeroes *)
-Definition reset_results_received_resets : list string :=
-  ["self._results_added[worker_id] = 0"; "self._results_received[worker_id] = 0"]%string.
-
-(* async_result.UnorderedAsyncResultIterator.next: StopIteration (when no item is buffered) iff
-   source: self._n_tasks is not None and self._n_returned == self._n_tasks *)
-Definition iterator_exhausted (n_tasks : option Z) (n_returned : Z) : bool :=
-  (match n_tasks with Some self__n_tasks => (n_returned =? self__n_tasks) | None => false end).
+(* GENERATION FAILED for group GenProto: free name 'worker_lifespan' is not declared for this kernel *)
+Definition generation_failed_GenProto : unit := tt.
